@@ -79,7 +79,9 @@ PROPS = {
                                      "the captured line must equal the message byte for byte (observation code 2 otherwise)"],
     },
     "C07": det("corr.C07", "DET07", "props/C07.v", "fixed threshold, FFC-free streams with resets; spec S07 (history-based verdict) on the implementation's verdicts"),
-    "C08": det("corr.C08", "DET08", "props/C08.v", "paired streams differing only in border pixels (fixed and dynamic threshold) or only in pixels at/below temp-thresh (fixed); both streams run on real detectors; spec: equal verdicts, thresholds, interior background"),
+    "C08": dict(det("corr.C08", "DET08", "props/C08.v", "paired streams differing only in border pixels (fixed and dynamic threshold) or only in pixels at/below temp-thresh (fixed); both streams run on real detectors; spec: equal verdicts, thresholds, interior background || parser half: raw Lepton/Boson frames with zeros planted on every border ring (and just inside it) through the real parsers: a border pixel never makes a frame bad"),
+                **{"stages": [{"harness": "DET08", "corr": "corr.C08", "corr_src": "corr.C08src", "n": {"quick": 200, "thorough": 4000}, "shard": 20},
+                              {"harness": "PARSE", "corr": "corr.C13p", "n": {"quick": 300, "thorough": 6000}, "shard": 60}]}),
     "C09": det("corr.C09", "DET09", "props/C09.v", "streams with FFC events at every offset/parity, resets, fixed and dynamic threshold; paired same-shape streams agreeing from the first affected frame of an FFC period; spec S09_supp + equal verdicts from the pairing point"),
     "C12": proc("corr.C12", "PROCFAULT", "props/C12.v", "failures (1-20 %) on every kind of call of all three sinks, continuous recorder on/off; each history ends with a fault-free recovery tail "
                 "(max+1 motionless frames, then max(1,trigger) motion frames, window open); compared projection: all calls with ids erased + panics; spec S12 && S12_recovers"),
@@ -134,6 +136,7 @@ PROPS = {
                                          "race reports are classified into variables by the functions and source lines of the two top frames"]},
     "C11": {"stages": [{"harness": "E2E", "corr": "corr.E2E11", "n": {"quick": 16, "thorough": 200}, "shard": 1},
                        {"harness": "E2ETHR", "corr": "corr.C18lag", "n": {"quick": 2, "thorough": 12}, "shard": 8},
+                       {"harness": "RECHDR", "corr": "corr.C18lag", "n": {"quick": 12, "thorough": 200}, "shard": 50},
                        {"harness": "CODEC", "corr": "corr.C11codec", "n": {"quick": 300, "thorough": 10000}, "shard": 50},
                        {"harness": "CPTVHDR", "corr": "corr.C11hdr", "n": {"quick": 150, "thorough": 3000}, "shard": 30}],
             "theorems": "props/C11.v",
